@@ -220,7 +220,7 @@ func (propC10) Draw(rt *rapid.T, w *WorldDesc, mode string) *Plan {
 	}
 	nOps := rapid.IntRange(1, 4).Draw(rt, "nOps")
 	p.Sequential = rapid.Bool().Draw(rt, "sequential")
-	ctClient := rapid.SampledFrom([]string{"application/json", "application/x-protobuf"}).Draw(rt, "clientCT")
+	ctClient := rapid.SampledFrom([]string{"application/json", "application/x-protobuf", "application/octet-stream"}).Draw(rt, "clientCT")
 	p.Clients = [][]Opt{{{Kind: "contentType", Value: ctClient}}}
 	for i := 0; i < nOps; i++ {
 		l := fmt.Sprintf("op%d", i)
